@@ -345,7 +345,7 @@ ReplyRules(s, e) ==
              got  == e.rdata
              n    == RLen(got)
          IN Fail(n > RLen(want) \/ got # RSlice(want, 0, n), "C02,C12:read-data")
-            \o Fail(n = 0 /\ RLen(want) > 0 /\ ~Tight(e), "C02:read-returns-nothing")
+            \o Fail(n = 0 /\ RLen(want) > 0, "C02,C12:read-returns-nothing")      \* (also on a full disk: a hole reads as zeros)
             \o Fail(e.rcount # n, "C02:read-count")
             \o Fail(s.lim.known /\ s.lim.rtmax > 0 /\ n > s.lim.rtmax, "C11,C19:read-reply-larger-than-rtmax")
             \o Fail(e.reof /\ ~e.offsat /\ e.off + n < size, "C02:read-eof-early")
